@@ -1476,6 +1476,10 @@ int main(int argc, char **argv) {
         for (int tc = 0; tc < 4; ++tc)
           for (size_t in = 0; in < nrm.size(); ++in)
             for (double fv : {0., 1., -1.}) {
+              // quick tier: tangential velocity on (none, left, both), face
+              // at rest or moving along +n; thorough: all 4 x 3
+              if (!th && (tc == 2 || fv < 0.))
+                continue;
               const Normal &N = nrm[in];
               if (vp.cls == 1 && expensive_gamma(g)) {
                 // reduced orientation set (see expensive_gamma)
@@ -1565,6 +1569,8 @@ int main(int argc, char **argv) {
         xis.erase(std::unique(xis.begin(), xis.end()), xis.end());
         for (double xi : xis)
           for (double wf : {1.3, -0.6}) {
+            if (!th && wf < 0.)
+              continue; // quick tier: one boost
             if (vp.cls == 1 && expensive_gamma(g) && !(xi == 0. && wf > 0.)) {
               ++acc.reduced;
               continue;
